@@ -32,13 +32,14 @@ ArrA == <<3, 1, 2>>
 ArrE == <<>>
 ArrW == <<2, 5>>
 ArrD == <<2, 4, 4, 3>>          \* (a repeated value: the set functions)
+ArrZ == <<0, 3, 0, 9>>          \* (zeros among the data: an average counts them)
 MatX == <<<<1, 2>>, <<3, 4>>>>   \* written [[1, 2], [3.0, 4.0]]: rows of different element kinds
 NodesH == <<"P1", "P2">>         \* a graph without edges
 MatM == <<<<1, 2>>, <<3, 4>>>>
 Nodes == <<"N1", "N2", "N3">>
 Edges == <<[u |-> "N1", v |-> "N2", w |-> 2], [u |-> "N1", v |-> "N3", w |-> 1], [u |-> "N2", v |-> "N3", w |-> 3]>>
-ArrOf(nm) == CASE nm = "A1" -> ArrA [] nm = "E0" -> ArrE [] nm = "W2" -> ArrW [] nm = "D4" -> ArrD
-DataText == "    let A1 = [3, 1, 2]\n    let E0 = []\n    let W2 = [2, 5]\n    let D4 = [2, 4, 4, 3]\n    let M2 = [[1, 2], [3, 4]]\n" \o
+ArrOf(nm) == CASE nm = "A1" -> ArrA [] nm = "E0" -> ArrE [] nm = "W2" -> ArrW [] nm = "D4" -> ArrD [] nm = "Z4" -> ArrZ
+DataText == "    let A1 = [3, 1, 2]\n    let E0 = []\n    let W2 = [2, 5]\n    let D4 = [2, 4, 4, 3]\n    let Z4 = [0, 3, 0, 9]\n    let M2 = [[1, 2], [3, 4]]\n" \o
             "    let G = Graph {\n        N1 -> [N2: 2, N3: 1],\n        N2 -> [N3: 3],\n        N3\n    }\n" \o
             "    let X2 = [[1, 2], [3.0, 4.0]]\n    let H = Graph { P1, P2 }"
 
@@ -139,12 +140,22 @@ Ix(v, off) == [v |-> v, off |-> off]
 IxText(ix) == IF ix.off = 0 THEN "_" \o ix.v ELSE "_{" \o ix.v \o " + " \o ToString(ix.off) \o "}"
 IdxText(ix, env) == IF ix.off = 0 THEN env[ix.v].s ELSE ToString(env[ix.v].n + ix.off)
 Term(base, ixs, coef) == [base |-> base, ixs |-> ixs, coef |-> coef]
+\* an aggregation of CONSTANTS used as a coefficient: over the elements, or over the positions
+AggCoefText(c) == IF c.by = "elem" THEN c.fn \o "(a9 in " \o c.arr \o ") { a9 }"
+                  ELSE c.fn \o "(i9 in 0..len(" \o c.arr \o ")) { " \o c.arr \o "[i9] }"
+RECURSIVE SumSeq(_, _)
+SumSeq(q, i) == IF i > Len(q) THEN 0 ELSE q[i] + SumSeq(q, i + 1)
+AggOf(fn, q) == CASE fn = "sum" -> SumSeq(q, 1) [] fn = "avg" -> SumSeq(q, 1) \div Len(q)
+                  [] fn = "max" -> CHOOSE m \in {q[i] : i \in 1..Len(q)} : \A i \in 1..Len(q) : q[i] <= m
+                  [] fn = "min" -> CHOOSE m \in {q[i] : i \in 1..Len(q)} : \A i \in 1..Len(q) : q[i] >= m
 CoefText(c) == CASE c.k = "one" -> "" [] c.k = "lit" -> ToString(c.n) \o " * " [] c.k = "val" -> c.v \o " * "
                  [] c.k = "acc" -> c.arr \o "[" \o c.v \o "] * "
+                 [] c.k = "agg" -> AggCoefText(c) \o " * "
                  [] c.k = "acc2" -> "X2[" \o c.v \o "][" \o c.v2 \o "] * "
 FactorText(c) == CASE c.k = "lit" -> ToString(c.n) [] c.k = "val" -> c.v [] c.k = "acc" -> c.arr \o "[" \o c.v \o "]"
                    [] c.k = "acc2" -> "X2[" \o c.v \o "][" \o c.v2 \o "]"
 CoefVal(c, env) == CASE c.k = "one" -> 1 [] c.k = "lit" -> c.n [] c.k = "val" -> env[c.v].n [] c.k = "acc" -> ArrOf(c.arr)[env[c.v].n + 1] [] c.k = "acc2" -> MatX[env[c.v].n + 1][env[c.v2].n + 1]
+                      [] c.k = "agg" -> AggOf(c.fn, ArrOf(c.arr))
 TermText(t) == CoefText(t.coef) \o t.base \o JoinS([i \in 1..Len(t.ixs) |-> IxText(t.ixs[i])], 1, "")
 \* concrete term: [c |-> coefficient, name |-> flattened variable name]
 NameOf(t, env) == t.base \o JoinS([i \in 1..Len(t.ixs) |-> "_" \o IdxText(t.ixs[i], env)], 1, "")
@@ -229,6 +240,7 @@ Lit(n) == [k |-> "lit", n |-> n]
 Val(v) == [k |-> "val", v |-> v]
 Acc(arr, v) == [k |-> "acc", arr |-> arr, v |-> v]
 Acc2(v, v2) == [k |-> "acc2", v |-> v, v2 |-> v2]
+Agg(fn, arr, by) == [k |-> "agg", fn |-> fn, arr |-> arr, by |-> by]
 Row(agg, inner, term, extra, cmp, rhs, named, nameix, for) ==
    [agg |-> agg, inner |-> inner, term |-> term, extra |-> extra, cmp |-> cmp, rhs |-> rhs, named |-> named, nameix |-> nameix, for |-> for, style |-> "block", more |-> <<>>]
 Chain(r) == [r EXCEPT !.style = "chain"]
@@ -300,6 +312,10 @@ RowsMixed == {Row(a, <<Rng("i", 0, 2), Rng("j", 0, 2)>>, Term("y", <<Ix("i", 0),
              \cup {Row(a, <<NodesHB("u")>>, Term("h", <<Ix("u", 0)>>, One), <<>>, c, 1, FALSE, "u", <<>>) : a \in {"sum", "any"}, c \in {"le", "ge"}}
              \cup {Row("none", <<>>, Term("h", <<Ix("u", 0)>>, One), <<>>, "le", 1, n, "u", <<NodesHB("u")>>) : n \in BOOLEAN}
              \cup {Row("sum", <<EdgesHB("u", "v")>>, Term("h", <<Ix("u", 0)>>, One), <<Term("h", <<Ix("w", 0)>>, One)>>, "le", 1, FALSE, "w", <<NodesHB("w")>>)}
+\* (arrays whose average is a whole number: Z4 = [0, 3, 0, 9] -> 3, A1 = [3, 1, 2] -> 2)
+AggCoefs == {Agg(fn, arr, by) : fn \in {"sum", "avg", "min", "max"}, arr \in {"Z4", "A1"}, by \in {"elem", "pos"}}
+RowsAgg == {Row("none", <<>>, Term("x", <<Ix("i", 0)>>, cf), <<>>, c, 20, n, "i", <<Rng("i", 0, 2)>>) : cf \in AggCoefs, c \in {"le", "ge"}, n \in BOOLEAN}
+           \cup {Row("sum", <<Rng("i", 1, 3)>>, Term("x", <<Ix("i", 0)>>, cf), <<>>, "le", 30, FALSE, "i", <<>>) : cf \in AggCoefs}
 RowSet == CASE Family = "prod" -> RowsProd
             [] Family = "mixed" -> RowsMixed
             [] Family = "scope" -> RowsScope
@@ -308,6 +324,7 @@ RowSet == CASE Family = "prod" -> RowsProd
             [] Family = "one" -> RowsFor1 \cup RowsSum1
             [] Family = "enum" -> RowsEnum \cup RowsTwo
             [] Family = "graph" -> RowsGraph
+            [] Family = "agg" -> RowsAgg
             [] Family = "alias" -> RowsGraph \cup RowsEnum \cup RowsNeigh \cup RowsLogic \cup RowsFor1
             [] OTHER -> RowsFor1 \cup RowsSum1 \cup RowsEnum \cup RowsTwo \cup RowsGraph \cup RowsProd \cup RowsLogic \cup RowsSets \cup RowsNeigh \cup RowsMixed
 
